@@ -231,17 +231,21 @@ def scopeInfoRef (s : Scope) : List KV :=
   s.attrs.filter (fun kv => kv.1 != scopeNameLabel && kv.1 != scopeVersionLabel) ++
     [(scopeNameLabel, s.name), (scopeVersionLabel, s.version)]
 
+/-- can the scope be exposed? With scope info enabled a scope needs an otel_scope_info series, i.e. scope attributes
+(those that the scope's name and version do not overwrite) whose (sanitised) keys are label names the registry admits
+and whose values are valid UTF-8; a scope without that is not exposed at all — neither its info series nor its
+instruments — and must not disturb any other scope. Without scope info the scope attributes play no role.
+`scope_exposable_iff_not_skipped_*` (Props): this is exactly when the model creates the scope info metric. -/
+def scopeOwnAttrs (s : Scope) : List KV :=
+  s.attrs.filter (fun kv => kv.1 != scopeNameLabel && kv.1 != scopeVersionLabel)
+
+def scopeExposable (esc : Bytes → Bytes) (sc : Scenario) (s : Scope) : Bool :=
+  sc.noScope || (scopeOwnAttrs s).all (fun kv =>
+    labelNameOK sc.cfg.legacy (effEsc esc sc.cfg.legacy kv.1) && Utf8.validString kv.2)
+
 def resValid (esc : Bytes → Bytes) (sc : Scenario) : Bool :=
   sc.res.all (fun kv => labelNameOK sc.cfg.legacy (effEsc esc sc.cfg.legacy kv.1) && Utf8.validString kv.2) &&
-  sc.scopes.all (fun s => Utf8.validString s.name && Utf8.validString s.version)
-
-/-- can the scope be exposed? With scope info enabled a scope needs an otel_scope_info series, i.e. scope attributes
-whose (sanitised) keys are label names the registry admits and whose values are valid UTF-8; a scope without that is not
-exposed at all — neither its info series nor its instruments — and must not disturb any other scope. Without scope info
-the scope attributes play no role. -/
-def scopeExposable (esc : Bytes → Bytes) (sc : Scenario) (s : Scope) : Bool :=
-  sc.noScope || (nodupKeys (s.attrs.map (·.1)) &&
-    s.attrs.all (fun kv => labelNameOK sc.cfg.legacy (effEsc esc sc.cfg.legacy kv.1) && Utf8.validString kv.2))
+  sc.scopes.all (fun s => Utf8.validString s.name && Utf8.validString s.version && nodupKeys (s.attrs.map (·.1)))
 
 /-- the scenario restricted to the scopes that can be exposed -/
 def exposable (esc : Bytes → Bytes) (sc : Scenario) : Scenario :=
